@@ -214,10 +214,18 @@ impl<'a> IRCodeGen<'a> {
                 let (aops, a) = self.expression(&a, ctx);
                 let (bops, b) = self.expression(&b, ctx);
                 let c = self.var();
+                // NOTE: `c` is assigned to - so it has to be a proper variable and not
+                // an inlined constant.
+                let short_circuit = self.var();
                 (
                     [
                         aops,
-                        vec![IR::Bool(c, false), IR::If(a)],
+                        vec![
+                            IR::Define(c),
+                            IR::Bool(short_circuit, false),
+                            IR::Assign(c, short_circuit),
+                            IR::If(a),
+                        ],
                         bops,
                         vec![IR::Assign(c, b), IR::End],
                     ]
@@ -230,10 +238,18 @@ impl<'a> IRCodeGen<'a> {
                 let (bops, b) = self.expression(&b, ctx);
                 let neg_a = self.var();
                 let c = self.var();
+                // NOTE: See the comment for `and`.
+                let short_circuit = self.var();
                 (
                     [
                         aops,
-                        vec![IR::Bool(c, true), IR::Not(neg_a, a), IR::If(neg_a)],
+                        vec![
+                            IR::Define(c),
+                            IR::Bool(short_circuit, true),
+                            IR::Assign(c, short_circuit),
+                            IR::Not(neg_a, a),
+                            IR::If(neg_a),
+                        ],
                         bops,
                         vec![IR::Assign(c, b), IR::End],
                     ]
